@@ -1,1 +1,3 @@
 import GSProofs.C13
+import GSProofs.C14
+import GSProofs.C18
